@@ -334,7 +334,7 @@ func c13SchedModel(startMin, endMin int, t time.Time) bool {
 
 func c13SchedBody(t *testing.T, steps int) mc.Body {
 	type win struct {
-		s, e string
+		s, e   string
 		sm, em int
 	}
 	// the bubble starts at 2000-01-01T00:00:00Z
